@@ -463,10 +463,18 @@ int main(int argc, char **argv) {
   if (!r.sub) { fprintf(stderr, "unknown sub '%s'\n", sub.c_str()); return 2; }
   verif::install_crash_capture();
   if (!replay.empty()) { int rcx = verif::replay_file(replay); verif::write_stats(); return rcx; }
+  // Shrinking effort is bounded (default 60 s after the first failure, VERIF_SHRINK_BUDGET_S): once it is used up every
+  // further shrink candidate is answered "passes" without being run, so rapidcheck settles on the smallest failing case
+  // found so far.  This bounds only the minimisation; the verdict (a failing case exists) is already fixed by then.
+  double shrink_budget = getenv("VERIF_SHRINK_BUDGET_S") ? atof(getenv("VERIF_SHRINK_BUDGET_S")) : 60.0;
+  bool failed_once = false; std::chrono::steady_clock::time_point first_fail;
   bool ok = rc::check(std::string("sub ") + r.sub->name, [&]() {
     verif::Scenario s = *r.sub->gen();
+    if (failed_once && std::chrono::duration<double>(std::chrono::steady_clock::now() - first_fail).count() > shrink_budget) return;
     std::string err = verif::execute_case(s);
-    if (!err.empty()) { r.last_fail_text = r.current_text; r.last_fail_msg = err; RC_FAIL(err); }
+    if (!err.empty()) {
+      if (!failed_once) { failed_once = true; first_fail = std::chrono::steady_clock::now(); }
+      r.last_fail_text = r.current_text; r.last_fail_msg = err; RC_FAIL(err); }
   });
   if (!ok) {
     std::string p = verif::save_failure(r.last_fail_text, r.last_fail_msg);
